@@ -173,10 +173,10 @@ def run_c06(pid, tier, t0):
     return v.finish(ev, t0)
 
 
-def validate(v, pid, wd, tag, lines, obs):
+def validate(v, pid, wd, tag, lines, obs, cfg="TraceLife.cfg"):
     tp = os.path.join(wd, "life_%s.ndjson" % tag)
     vlib.write_ndjson(tp, lines)
-    acc, info, tr = vlib.validate_trace("TraceLife", "TraceLife.cfg", tp, timeout=1200, name="trace_life", dfs=False)
+    acc, info, tr = vlib.validate_trace("TraceLife", cfg, tp, timeout=1200, name="trace_life", dfs=False)
     if acc:
         return True
     keep = os.path.join(vlib.EVID, "replay", "trace_%s_%s.ndjson" % (pid, tag))
